@@ -30,6 +30,8 @@ def QuoRem (a b : Rat) (p : Int) : Outcome (Rat × Rat) :=
   match quoRem a b p.toNat with
   | some r => .ok r
   | none => .panic "decimal division by 0"
+/-- `d.Shift(n)`: multiplication by `10^n`, exact -/
+def Shift (a : Rat) (n : Int) : Rat := if 0 ≤ n then a * ((10 ^ n.toNat : Nat) : Rat) else a / ((10 ^ (-n).toNat : Nat) : Rat)
 @[simp] def IsZero (a : Rat) : Bool := decide (a = 0)
 @[simp] def IsNegative (a : Rat) : Bool := decide (a < 0)
 @[simp] def IsPositive (a : Rat) : Bool := decide (a > 0)
